@@ -563,6 +563,27 @@ def run(ctx):
             elif hg:
                 nm = callee_name(hg[0])
                 okb = any(b[0] == nm and b[1] >= hsize for b in bounded)
+                # ... and that field is all the getter ever reports: every value it can return is the bounded header field itself (or 0);
+                # a fallback to another field, a decoded DLC, a default — none of them was compared with the payload size
+                def leaves(e, depth=0):
+                    e = strip_all_casts(facts.expand(lenf, e))
+                    if e.get("k") == "cond" and depth < 4:
+                        return leaves(e["a"], depth + 1) + leaves(e["b"], depth + 1)
+                    return [e]
+                other = []
+                for r in lenf.returns():
+                    if not isinstance(r.get("e"), dict):
+                        continue
+                    for v in leaves(r["e"]):
+                        if const_value(v) == 0:
+                            continue
+                        if v.get("k") == "call" and callee_name(v) in [b[0] for b in bounded if b[1] >= hsize] and not v.get("args"):
+                            continue
+                        other.append(v)
+                res.check(not other, "C03-R2b", key + ":only-the-bounded-field", (other[0].get("loc") if other else None) or lenf.loc,
+                          "%s() returns the validated header field on every path" % lg,
+                          "%s() can also return `%s`, a value %s::isValidPayload never compared with the payload size: the view %s()/%s() of a payload "
+                          "accepted as valid can reach beyond its bytes" % (lg, canon(other[0])[:90] if other else "", cls, pg, lg))
                 if okb:
                     rule_view_extent(fb, res, cls, key, ptrf, lenf, hsize, bound_minus=max(b[1] for b in bounded if b[0] == nm))
                 res.check(okb, "C03-R2b", key, lenf.loc, "%s() is bounded by the validator (<= size - %d)" % (nm.split("::")[-1], hsize),
